@@ -884,6 +884,12 @@ class G:
                 else:
                     self.features.add("mux-case-without-structure")
                 cases.append({"name": f"c{c}", "lo": lo, "hi": hi, "st": cs, "snref": self.chance(30)})
+                if self.opts.get("mux_interval_types", True) and self.chance(35):
+                    # the same key range written with explicit INTERVAL-TYPEs (an OPEN limit excludes its value)
+                    cases[-1]["lo_t"] = self.pick(["CLOSED", "OPEN", "OPEN"]) if lo > 0 else "CLOSED"
+                    cases[-1]["hi_t"] = self.pick(["CLOSED", "OPEN", "OPEN", None])
+                    if "OPEN" in (cases[-1]["lo_t"], cases[-1]["hi_t"]):
+                        self.features.add("mux-open-limit")
                 lo = hi + 1 + self.pick([0, 0, 2])
             if len(cases) > 1 and self.chance(40):
                 cases = list(self.d(st.permutations(cases)))     # cases need not be declared in ascending order
